@@ -1,5 +1,5 @@
 import TLVerif.Util.Hex
-import TLVerif.Acks.Acks
+import TLVerif.Acks.Heap
 /-! Line-protocol handler for the `acks` family.
 
 `acks.seq <prefix0> <from>:<to>,<from>:<to>,…` (`-` for no operations): start from
@@ -38,15 +38,17 @@ def observe (a : AcksToSend) : String :=
   let as := match h.set with | some s => showNats s | none => "-"
   s!"p={a.ackPrefix} r={showPairs (a.ranges.map fun r => (r.ackFrom, r.ackTo))} e={checkInvariantsCommon a} ap={ap} ar={ar} as={as} n={showPairs (buildNegativeAck a)}"
 
-def observeAll : AcksToSend → List (Nat × Nat) → List String → List String
-  | a, [], acc => (observe a :: acc).reverse
-  | a, op :: rest, acc => observeAll (addAckRange a op.1 op.2) rest (observe a :: acc)
+/-- Runs the pointer-level model (`Heap.lean`); every observation is made on its list view `Heap.abs`
+(`HeapLemmas.hRun_abs`: this is the list-level model the theorems are about). -/
+def observeAll : Heap → List (Nat × Nat) → List String → List String
+  | h, [], acc => (observe h.abs :: acc).reverse
+  | h, op :: rest, acc => observeAll (hAddAckRange h op.1 op.2) rest (observe h.abs :: acc)
 
 def handle (op : String) (args : List String) : String :=
   match op, args with
   | "seq", [p, o] =>
     match parseU32 p, parseOps o with
-    | some p0, some ops => "ok " ++ " ; ".intercalate (observeAll ⟨p0, []⟩ ops [])
+    | some p0, some ops => "ok " ++ " ; ".intercalate (observeAll (Heap.empty p0) ops [])
     | _, _ => "bad-op"
   | _, _ => "bad-op"
 
